@@ -151,6 +151,15 @@ pub fn serve<P: Property>(tier: Tier) -> ! {
     };
     super::panics::install_hook();
     super::stage::install_fatal_handler();
+    // cases run on a thread with the stack Rust gives every spawned thread (2 MiB) - the stack a
+    // library user's worker thread has - rather than on the 8 MiB main-thread stack
+    let t = std::thread::Builder::new().name("case".into()).stack_size(2 << 20).spawn(move || serve_loop::<P>(tier, &mut out, &mut inp)).expect("spawn case thread");
+    let _ = t.join();
+    // the loop only ends through exit(); a panic that escaped it is an abnormal end
+    std::process::exit(101);
+}
+
+fn serve_loop<P: Property>(tier: Tier, out: &mut std::fs::File, inp: &mut std::fs::File) {
     let prop = P::new(tier);
     loop {
         let mut len = [0u8; 4];
